@@ -6,6 +6,7 @@ package hx
 import (
 	"bytes"
 	"encoding/json"
+	"sort"
 	"errors"
 	"fmt"
 	"strings"
@@ -190,6 +191,45 @@ func clip(s string, n int) string {
 		return s[:n]
 	}
 	return s
+}
+
+// AliasProbe looks for values of one delivered transaction that share memory:
+// it overwrites the values one at a time and after each checks that every
+// other value still reads as before. It returns "" or a description. The
+// transaction is left scribbled.
+func AliasProbe(t *gobinlog.Transaction) string {
+	type cell struct {
+		where string
+		c     *gobinlog.ColumnData
+		want  []byte
+	}
+	var cells []cell
+	for ei, e := range t.Events {
+		for name, rs := range map[string][]*gobinlog.RowData{"after": e.RowValues, "before": e.RowIdentifies} {
+			for ri, r := range rs {
+				if r == nil {
+					continue
+				}
+				for ci, c := range r.Columns {
+					if len(c.Data) > 0 {
+						cells = append(cells, cell{fmt.Sprintf("event %d %s row %d col %d (%s)", ei, name, ri, ci, c.Filed), c, append([]byte{}, c.Data...)})
+					}
+				}
+			}
+		}
+	}
+	sort.Slice(cells, func(i, j int) bool { return cells[i].where < cells[j].where })
+	for i := range cells {
+		for k := range cells[i].c.Data {
+			cells[i].c.Data[k] = 0xAA
+		}
+		for j := i + 1; j < len(cells); j++ {
+			if !bytes.Equal(cells[j].c.Data, cells[j].want) {
+				return fmt.Sprintf("overwriting %s changed %s: now %q, was %q (the two values share memory)", cells[i].where, cells[j].where, clip(string(cells[j].c.Data), 40), clip(string(cells[j].want), 40))
+			}
+		}
+	}
+	return ""
 }
 
 // Scribble overwrites every byte slice reachable from a delivered transaction.
